@@ -3514,15 +3514,15 @@ class TLSConnection(TLSRecordLayer):
 
         #If client's version is too low, reject it
         real_version = clientHello.client_version
+        ext = clientHello.getExtension(ExtensionType.supported_versions)
+        # the list is defined as <2..254>, it can't be empty
+        if ext and not ext.versions:
+            for result in self._sendError(
+                    AlertDescription.decode_error,
+                    "Malformed supported_versions extension"):
+                yield result
         if real_version >= (3, 3):
-            ext = clientHello.getExtension(ExtensionType.supported_versions)
             if ext:
-                # the list is defined as <2..254>, it can't be empty
-                if not ext.versions:
-                    for result in self._sendError(
-                            AlertDescription.decode_error,
-                            "Malformed supported_versions extension"):
-                        yield result
                 for v in ext.versions:
                     if v in KNOWN_VERSIONS and v > real_version:
                         real_version = v
